@@ -100,7 +100,7 @@ def write_dump(model, wrap=10, newline="\r\n", trailer_alone=False):
 
 
 def model_from_tissue(t, nint, seed, coord_scale=1.0, gaps=True, styles=("density", "density_original", "other", "bare"),
-                      orphans=0):
+                      orphans=0, per_edge_density=False, shuffle_records=False):
     """Build an SEModel from a Tissue: each ridge is a chain of mesh edges; ids arbitrary positive with gaps;
     faces reference edges with signs; densities are per ridge (T), pressures drawn."""
     rng = PRNG(seed)
@@ -154,6 +154,10 @@ def model_from_tissue(t, nint, seed, coord_scale=1.0, gaps=True, styles=("densit
         v1, v2 = (vid_of[b], vid_of[a]) if flip else (vid_of[a], vid_of[b])
         stl = style_of_ridge[ri]
         dens = round(float(t.ridges[ri].T), 6) if stl.startswith("density") else None
+        if dens is not None and per_edge_density:
+            # every mesh edge its own density: zero, values that round to zero at four decimals, ties, ordinary ones
+            u = int(rng.integers(0, 6))
+            dens = [dens, 0.0, 4e-05, round(float(rng.uniform(0.1, 3.0)), 6), 0.00005, round(dens * 2, 6)][u]
         m.edges[eid] = (v1, v2, dens, stl)
         e_of[(ri, k)] = (eid, flip)
     # faces
@@ -214,6 +218,14 @@ def model_from_tissue(t, nint, seed, coord_scale=1.0, gaps=True, styles=("densit
             new_edge(a, tv())
         else:                  # isolated vertex
             pass
+    if shuffle_records:
+        # records of every section in arbitrary (not ascending) order; bodies follow the face order
+        r2 = PRNG(seed ^ 0x51ED)
+        kv = list(m.vertices.items())
+        m.vertices = dict(kv[i] for i in r2.permutation(len(kv)))
+        ke = list(m.edges.items())
+        m.edges = dict(ke[i] for i in r2.permutation(len(ke)))
+        m.faces = [m.faces[i] for i in r2.permutation(len(m.faces))]
     m.vid_of = vid_of
     m.e_of = e_of
     m.chains = chains
